@@ -18,6 +18,7 @@ from vf.simharness import FaultPlan, make_cluster, owned, run_sim, idle_ms
 from vf.simloop import OWNER
 
 TOPIC = "t"
+TOPIC_B = "tb"
 GROUP = "g19"
 HANG_FACTOR = 4          # a stop() still pending after HANG_FACTOR x B_stop (+ horizon + 20 s) is called "never returns"
 WORKLOADS = ["producer", "group_consumer", "simple_consumer"]
@@ -36,7 +37,7 @@ def gen_params(rng, idx, tier="quick", force=None):
         "rebalance_timeout_ms": rebalance,
         "heartbeat_interval_ms": rng.choice([300, 1000]),
         "retry_backoff_ms": rng.choice([50, 100]),
-        "metadata_max_age_ms": rng.choice([2000, 5000]),
+        "metadata_max_age_ms": rng.choice([2000, 5000, 300000]),      # 300 s = the library's default: not part of the bound
         "horizon": rng.choice([3.0, 5.0]),
         "idempotent": rng.random() < 0.5,
         "acks": rng.choice([0, 1, -1]),
@@ -58,6 +59,14 @@ def gen_params(rng, idx, tier="quick", force=None):
                               if rng.random() < 0.3 else None),
         # the application polls only now and then (sleeps this long between getmany() calls)
         "poll_pause": rng.choice([0.01, 0.01, 0.5, 2.0]),
+        # group consumer: the coordinator is loading the group (answers every group request COORDINATOR_LOAD_IN_PROGRESS)
+        # from the moment the consumer subscribes until long after the run
+        "coordinator_loading": rng.random() < 0.12,
+        # the 2nd..4th Metadata request of the run is answered late (in flight while the consumer subscribes after start())
+        "md_slow_at_start": rng.random() < 0.15,
+        # group consumer that subscribed after start(): a second subscribe() with a larger topic set this long afterwards
+        # (the topic set is replaced while the metadata request for the first one may still be in flight)
+        "resubscribe_after": rng.choice([None, None, None, 0.05, 0.3]),
         "stop_at_event": None,
         "unreachable_from_event": None,             # when the cluster state change happens (event index); None = with stop
     }
@@ -79,6 +88,7 @@ def run_history(P):
     rng = random.Random(P["seed"])
     net, cl = make_cluster(P["seed"], n_brokers=3)
     cl.create_topic(TOPIC, P["n_parts"])
+    cl.create_topic(TOPIC_B, 1)
     for p in range(P["n_parts"]):
         pl = cl.plog(TOPIC, p)
         for i in range(10):
@@ -100,6 +110,15 @@ def run_history(P):
                 return True
             return False
         plan.script(pred, C.Fate("error", C.GROUP_AUTHORIZATION_FAILED), once=True)
+    if P.get("md_slow_at_start"):
+        md_seen = {"n": 0}
+
+        def md_pred(ctx):
+            if ctx["api"] != "Metadata" or ctx.get("client_id") != "client":
+                return False
+            md_seen["n"] += 1
+            return md_seen["n"] in (2, 3, 4)
+        plan.script(md_pred, C.Fate("delay", delay=0.8), once=False)
     H = {"params": P, "events": [], "errors": [], "stop": {}, "leftovers": None, "after": {}}
     ev = H["events"]
 
@@ -132,7 +151,7 @@ def run_history(P):
                     retry_backoff_ms=P["retry_backoff_ms"], metadata_max_age_ms=P["metadata_max_age_ms"],
                     fetch_max_wait_ms=200, connections_max_idle_ms=idle_ms(P))
                 if wl == "group_consumer":
-                    if not P.get("late_subscribe"):
+                    if not (P.get("late_subscribe") or P.get("coordinator_loading")):
                         client.subscribe([TOPIC])
                 elif P.get("simple_mode") == "subscribe_growth":
                     client.subscribe([TOPIC])
@@ -147,9 +166,21 @@ def run_history(P):
                 return
         log("started", events=loop.events)
         H["events_at_start"] = loop.events
-        if wl == "group_consumer" and P.get("late_subscribe"):
+        if wl == "group_consumer" and P.get("coordinator_loading"):
+            cl.gc.loading_until[GROUP] = loop.time() + 3600.0
+        if wl == "group_consumer" and (P.get("late_subscribe") or P.get("coordinator_loading")):
             with owned("client"):
                 client.subscribe([TOPIC])
+            if P.get("resubscribe_after") is not None:
+                def resub():
+                    tok = OWNER.set("client")
+                    try:
+                        client.subscribe([TOPIC, TOPIC_B])
+                    except Exception:  # noqa: BLE001  (stopped meanwhile)
+                        pass
+                    finally:
+                        OWNER.reset(tok)
+                loop.call_later(P["resubscribe_after"], resub)
         plan.enabled = True
         stopping = {"flag": False}
         bg = []
